@@ -1,7 +1,7 @@
 (* C03Lemmas.v -- the round-trip statements of C03 assembled: geff.write of a networkx / rustworkx graph into a
    fresh store, geff.read through the same library, adapter view = the graph that was written. *)
 From Geff Require Import Base Dtype DtypeLemmas Vlen VlenLemmas Tree TreeLemmas Validate Write Read RoundTrip WriteLemmas ReadLemmas
-     ValidateLayout C01Lemmas Dicts Backends BackendsLemmas DictsLemmas ListColLemmas.
+     ValidateLayout C01Lemmas Dicts Backends BackendsLemmas DictsLemmas ListColLemmas Names.
 From Coq Require Import Lia.
 Open Scope string_scope.
 Open Scope list_scope.
@@ -95,6 +95,25 @@ Proof.
   tauto.
 Qed.
 
+(* ================= what a property NAME and a string VALUE may be ================= *)
+(* Names: Names.name_ok (one path segment that is no reserved member name of zarr).
+   String values are interned tokens ("" = 0); numpy stores them in a fixed-width <U array, whose elements LOSE their trailing NUL
+   characters ("a\x00" reads back "a", "\x00" reads back ""): the open finding str-trailing-nul-stripped.  The interning convention
+   makes that visible: a string with k >= 1 trailing NULs is interned as  token(string without them) + k * nul_base,  so the tokens
+   below nul_base are exactly the strings that do not end in NUL, and the round-trip theorems speak about those. *)
+Definition nul_base : Z := (2 ^ 32)%Z.
+Definition str_tok_ok (t : Z) : bool := ((0 <=? t) && (t <? nul_base))%Z.
+Fixpoint strs_ok_val (v : pyval) : bool :=
+  match v with
+  | PStr t => str_tok_ok t
+  | PList l => forallb strs_ok_val l
+  | _ => true
+  end.
+Definition strs_ok (col : list (option pyval)) : bool :=
+  forallb (fun o => match o with Some v => strs_ok_val v | None => true end) col.
+(* what the code does to such a token (not used by the model, which keeps tokens: the theorems exclude them) *)
+Definition nul_stripped (t : Z) : Z := (t mod nul_base)%Z.
+
 (* ================= the explicit domain: scalar attributes ================= *)
 (* every property column holds Python scalars that numpy -- with the fill value where an element lacks the property --
    types alike (col_dt): all bool, all ints of the int64 range, all ints of [2^63, 2^64) on every element, all float, all str *)
@@ -104,9 +123,11 @@ Record dom_scalar (d : bool) (g : dgraph) : Prop := {
   ds_edistinct : distinctb (ekey_eqb d) (map fst (d_edges g)) = true;
   ds_endpoints : forall e, In e (map fst (d_edges g)) -> In (fst e) (map fst (d_nodes g)) /\ In (snd e) (map fst (d_nodes g));
   ds_ncols : forall name, In name (keys_of (map snd (d_nodes g))) ->
-             name <> "" /\ exists dt, col_dt (column (map snd (d_nodes g)) name) = Some dt;
+             name_ok name = true /\ strs_ok (column (map snd (d_nodes g)) name) = true /\
+             exists dt, col_dt (column (map snd (d_nodes g)) name) = Some dt;
   ds_ecols : forall name, In name (keys_of (map snd (d_edges g))) ->
-             name <> "" /\ exists dt, col_dt (column (map snd (d_edges g)) name) = Some dt
+             name_ok name = true /\ strs_ok (column (map snd (d_edges g)) name) = true /\
+             exists dt, col_dt (column (map snd (d_edges g)) name) = Some dt
 }.
 
 Lemma keys_nonempty (data : list attrs) name : In name (keys_of data) -> data <> [].
@@ -124,8 +145,8 @@ Qed.
 
 Lemma dom_scalar_dicts d g : dom_scalar d g -> dom_dicts cv_scalar d g.
 Proof. intros H. constructor; try apply H.
-  - apply scalar_cols_ok. apply (ds_ncols _ _ H).
-  - apply scalar_cols_ok. apply (ds_ecols _ _ H). Qed.
+  - apply scalar_cols_ok. intros name Hin. destruct (ds_ncols _ _ H name Hin) as [Hn [_ Hd]]. split; [apply name_ok_nonempty; exact Hn | exact Hd].
+  - apply scalar_cols_ok. intros name Hin. destruct (ds_ecols _ _ H name Hin) as [Hn [_ Hd]]. split; [apply name_ok_nonempty; exact Hn | exact Hd]. Qed.
 
 (* the whole round trip as one function of the written graph *)
 Definition nx_rt (d : bool) (g : dgraph) (mdtok axtok : Z) : res cgraph :=
@@ -176,8 +197,10 @@ Record dom_plain (d : bool) (g : dgraph) : Prop := {
   dp_distinct : distinctb Z.eqb (map fst (d_nodes g)) = true;
   dp_edistinct : distinctb (ekey_eqb d) (map fst (d_edges g)) = true;
   dp_endpoints : forall e, In e (map fst (d_edges g)) -> In (fst e) (map fst (d_nodes g)) /\ In (snd e) (map fst (d_nodes g));
-  dp_ncols : forall name, In name (keys_of (map snd (d_nodes g))) -> name <> "" /\ plain_col (column (map snd (d_nodes g)) name);
-  dp_ecols : forall name, In name (keys_of (map snd (d_edges g))) -> name <> "" /\ plain_col (column (map snd (d_edges g)) name)
+  dp_ncols : forall name, In name (keys_of (map snd (d_nodes g))) ->
+             name_ok name = true /\ strs_ok (column (map snd (d_nodes g)) name) = true /\ plain_col (column (map snd (d_nodes g)) name);
+  dp_ecols : forall name, In name (keys_of (map snd (d_edges g))) ->
+             name_ok name = true /\ strs_ok (column (map snd (d_edges g)) name) = true /\ plain_col (column (map snd (d_edges g)) name)
 }.
 
 Definition nx_roundtrip_full : Prop :=
@@ -192,7 +215,7 @@ Proof. constructor.
   - reflexivity.
   - reflexivity.
   - intros e [].
-  - intros name Hin. vm_compute in Hin. destruct Hin as [<-|[]]. split; [discriminate|].
+  - intros name Hin. vm_compute in Hin. destruct Hin as [<-|[]]. split; [reflexivity|]. split; [reflexivity|].
     exists SInt. intros v Hv. vm_compute in Hv. destruct Hv as [Hv|[Hv|[]]]; inversion Hv; subst; (split; [reflexivity|]); intros z Hz; inversion Hz; subst; lia.
   - intros name [].
 Qed.
@@ -219,20 +242,22 @@ Record dom_values (d : bool) (g : dgraph) : Prop := {
   dv_distinct : distinctb Z.eqb (map fst (d_nodes g)) = true;
   dv_edistinct : distinctb (ekey_eqb d) (map fst (d_edges g)) = true;
   dv_endpoints : forall e, In e (map fst (d_edges g)) -> In (fst e) (map fst (d_nodes g)) /\ In (snd e) (map fst (d_nodes g));
-  dv_ncols : forall name, In name (keys_of (map snd (d_nodes g))) -> name <> "" /\ val_col (column (map snd (d_nodes g)) name);
-  dv_ecols : forall name, In name (keys_of (map snd (d_edges g))) -> name <> "" /\ val_col (column (map snd (d_edges g)) name)
+  dv_ncols : forall name, In name (keys_of (map snd (d_nodes g))) ->
+             name_ok name = true /\ strs_ok (column (map snd (d_nodes g)) name) = true /\ val_col (column (map snd (d_nodes g)) name);
+  dv_ecols : forall name, In name (keys_of (map snd (d_edges g))) ->
+             name_ok name = true /\ strs_ok (column (map snd (d_edges g)) name) = true /\ val_col (column (map snd (d_edges g)) name)
 }.
 
 Lemma dom_values_dicts d g : dom_values d g -> dom_dicts cv_of_py d g.
 Proof. intros H. constructor; try apply H.
-  - apply values_cols_ok. apply (dv_ncols _ _ H).
-  - apply values_cols_ok. apply (dv_ecols _ _ H). Qed.
+  - apply values_cols_ok. intros name Hin. destruct (dv_ncols _ _ H name Hin) as [Hn [_ Hv]]. split; [apply name_ok_nonempty; exact Hn | exact Hv].
+  - apply values_cols_ok. intros name Hin. destruct (dv_ecols _ _ H name Hin) as [Hn [_ Hv]]. split; [apply name_ok_nonempty; exact Hn | exact Hv]. Qed.
 
 Lemma dom_scalar_values d g : dom_scalar d g -> dom_values d g.
 Proof. intros H. constructor; try apply H.
-  - intros name Hin. destruct (ds_ncols _ _ H name Hin) as [Hne Hd]. split; [exact Hne|]. split; [|left; exact Hd].
+  - intros name Hin. destruct (ds_ncols _ _ H name Hin) as [Hne [Hs Hd]]. split; [exact Hne|]. split; [exact Hs|]. split; [|left; exact Hd].
     intro E. apply (keys_nonempty _ name Hin). apply length_zero_iff_nil. rewrite <- (column_length _ name), E. reflexivity.
-  - intros name Hin. destruct (ds_ecols _ _ H name Hin) as [Hne Hd]. split; [exact Hne|]. split; [|left; exact Hd].
+  - intros name Hin. destruct (ds_ecols _ _ H name Hin) as [Hne [Hs Hd]]. split; [exact Hne|]. split; [exact Hs|]. split; [|left; exact Hd].
     intro E. apply (keys_nonempty _ name Hin). apply length_zero_iff_nil. rewrite <- (column_length _ name), E. reflexivity. Qed.
 
 Theorem nx_rt_values d g mdtok axtok : dom_values d g ->
